@@ -21,7 +21,7 @@ from .. import impl
 from .. import parsecheck as P
 
 PID = 'C01'
-CONFIGS = ['SY_ops.cfg', 'SY_args.cfg', 'SY_refs.cfg', 'SY_union.cfg', 'SY_assoc.cfg']
+CONFIGS = ['SY_ops.cfg', 'SY_args.cfg', 'SY_refs.cfg', 'SY_union.cfg', 'SY_assoc.cfg', 'SY_str.cfg']
 
 
 def tlc_obligations(rep, configs, maxlen_bump=0):
@@ -151,7 +151,8 @@ def check_one(o, styles, rnd):
                 continue
             if st != 'parens':
                 exp_rpn = P.postorder(tree)
-                if P.norm_rpn(p.rpn) != [x.upper() if x not in ('u-', 'u+') else x for x in exp_rpn]:
+                # (the builder is handed the text of a string literal, without its quotes)
+                if P.norm_rpn(p.rpn) != [x.strip('"').upper() if x not in ('u-', 'u+') else x for x in exp_rpn]:
                     probs.append(('rpn', {'text': text, 'expected': exp_rpn, 'observed': p.rpn, 'style': st}))
                     continue
         if tree is not None:
